@@ -94,7 +94,13 @@ class LoopParser(SubParser):
 
         if self.current_token.is_a(TokenTypes.WITH):
             self.next_token()
-            return self._pre_loop_with(code_gen, context_stack)
+            if not self._pre_loop_with(code_gen, context_stack):
+                return False
+        # The loop's variables exist only once every expression in the
+        # header has been compiled; the header itself can't refer to them.
+        for name in (self._light_var, self._index_var):
+            if name is not None:
+                context_stack.add_variable(name)
         return True
 
     def _pre_loop_list(self, code_gen, context_stack) -> bool:
@@ -190,14 +196,12 @@ class LoopParser(SubParser):
         if not self.current_token.is_a(TokenTypes.NAME):
             return self.token_error('Expected name for lights, got "{}"')
         self._light_var = str(self.current_token)
-        context_stack.add_variable(self._light_var)
         return self.next_token()
 
     def _init_index_var(self, context_stack) -> bool:
         if not self.current_token.is_a(TokenTypes.NAME):
             return self.token_error('Not a variable name: "{}"')
         self._index_var = str(self.current_token)
-        context_stack.add_variable(self._index_var)
         return self.next_token()
 
     def _index_var_range(self, code_gen) -> bool:
